@@ -805,3 +805,224 @@ Proof.
     + constructor. lia.
     + intros C. cbn [resolved fst snd env_of]. split; [apply fill_plain, plain_tb|exact E].
 Qed.
+
+(* ------------------------------------------------------------------ ids: prefix order *)
+Definition sprefix (i j : list N) : Prop := exists s, s <> [] /\ j = i ++ s.
+Definition antichain (l : list (list N)) : Prop :=
+  forall i j, In i l -> In j l -> ~ sprefix i j.
+
+Lemma sprefix_irrefl i : ~ sprefix i i.
+Proof.
+  intros [s [Hs E]]. rewrite <- (app_nil_r i) in E at 1. apply app_inv_head in E. congruence.
+Qed.
+Lemma sprefix_trans i j k : sprefix i j -> sprefix j k -> sprefix i k.
+Proof.
+  intros [s [Hs E]] [s' [Hs' E']]. exists (s ++ s'). split.
+  - destruct s; [congruence|discriminate].
+  - rewrite E', E, app_assoc. reflexivity.
+Qed.
+Lemma sprefix_snoc i x : sprefix i (i ++ [x]).
+Proof. exists [x]. split; [discriminate|reflexivity]. Qed.
+(** a strict prefix of i ++ [x] is i or a strict prefix of i *)
+Lemma sprefix_snoc_inv j i x : sprefix j (i ++ [x]) -> j = i \/ sprefix j i.
+Proof.
+  intros [s [Hs E]]. destruct (exists_last Hs) as [s' [y Es]]. subst s.
+  rewrite app_assoc in E. apply app_inj_tail in E. destruct E as [E _]. subst i.
+  destruct s' as [|z s']; [left; rewrite app_nil_r; reflexivity|].
+  right. exists (z :: s'). split; [discriminate|reflexivity].
+Qed.
+
+(** the ids handed out while resolving the chunk with id [i]: i ++ [j], j >= 1 *)
+Lemma child_id i j : bump j (i ++ [0%N]) = i ++ [N.of_nat j].
+Proof. rewrite bump_snoc. reflexivity. Qed.
+
+Lemma antichain_replace l i news :
+  antichain l -> In i l ->
+  (forall n, In n news -> exists x, n = i ++ [x]) ->
+  forall l', (forall j, In j l' -> (In j l /\ j <> i) \/ In j news) ->
+  antichain l'.
+Proof.
+  intros A Hi Hn l' Hl a b Ha Hb S.
+  destruct (Hl a Ha) as [[Ha1 Ha2]|Ha1]; destruct (Hl b Hb) as [[Hb1 Hb2]|Hb1].
+  - apply (A a b); auto.
+  - destruct (Hn b Hb1) as [x E]. subst b. destruct (sprefix_snoc_inv _ _ _ S) as [E|E].
+    + contradiction.
+    + apply (A a i); auto.
+  - destruct (Hn a Ha1) as [x E]. subst a. apply (A i b); auto.
+    eapply sprefix_trans; [apply sprefix_snoc|exact S].
+  - destruct (Hn a Ha1) as [x E]. destruct (Hn b Hb1) as [y E']. subst.
+    destruct S as [s [Hs E]]. rewrite <- app_assoc in E. apply app_inv_head in E.
+    destruct s as [|z s]; [congruence|]. simpl in E. inversion E.
+Qed.
+
+(* ------------------------------------------------------------------ the state invariant *)
+Notation vochunk := (ooo_chunk clo oclo).
+
+Definition ooo_of (c : list vchunkT) : list (fid * oclo) :=
+  flat_map (fun x => match x with COoo f k => [(f, k)] | _ => [] end) c.
+Definition Tb (b : vsb) : html := sync_buf b ++ concat (sync_payloads (chunks b)).
+Definition Qb (b : vsb) : list (fid * oclo) := ooo_of (chunks b) ++ pending_ooo b.
+Definition nocasync (c : list vchunkT) : Prop :=
+  Forall (fun x => match x with CAsync _ _ => False | _ => True end) c.
+Definition nosync (c : list vchunkT) : Prop := sync_payloads c = [].
+Definition kid (fk : fid * oclo) : option (list N) := o_id (snd fk).
+
+Lemma ooo_of_cof l : ooo_of (cof l) = l.
+Proof. induction l as [|[f k] l IH]; simpl; auto. rewrite IH. reflexivity. Qed.
+Lemma payloads_cof l : sync_payloads (cof l) = [].
+Proof. induction l as [|[f k] l IH]; simpl; auto. Qed.
+Lemma ooo_of_app a b : ooo_of (a ++ b) = ooo_of a ++ ooo_of b.
+Proof. unfold ooo_of. apply flat_map_app. Qed.
+Lemma payloads_app (a b : list vchunkT) : sync_payloads (a ++ b) = sync_payloads a ++ sync_payloads b.
+Proof. unfold sync_payloads. apply flat_map_app. Qed.
+Lemma cof_app a b : cof (a ++ b) = cof a ++ cof b.
+Proof. unfold cof. apply map_app. Qed.
+Lemma cof_rev a : rev (cof a) = cof (rev a).
+Proof. unfold cof. rewrite map_rev. reflexivity. Qed.
+Lemma non_sync_cof l : non_sync (cof l) = cof l.
+Proof. induction l as [|[f k] l IH]; simpl; auto. rewrite IH. reflexivity. Qed.
+Lemma nocasync_cof l : nocasync (cof l).
+Proof. induction l as [|[f k] l IH]; constructor; auto; exact I. Qed.
+
+Section Invariant.
+Variable chk : bool.
+Variable R : html.     (* the resolved document *)
+
+(** closures of the state vs. regions of the document *)
+Record Qok (Q : list (fid * oclo)) (rs : list (list N * html)) (e : env) : Prop := {
+  q_clo : forall f k, In (f, k) Q ->
+          exists i F, o_id k = Some i /\ In (i, F) rs /\ clo_ok chk k /\ lookup e i = Some (fin k F);
+  q_reg : forall i F, In (i, F) rs -> exists f k, In (f, k) Q /\ o_id k = Some i;
+  q_nodup : NoDup (map kid Q);
+}.
+
+Definition shapeA (b : vsb) : Prop :=
+  exists l tail, chunks b = cof l ++ tail
+                 /\ (tail = [] \/ exists s, tail = [CSync s] /\ sync_buf b = []).
+
+Definition OInv (E : html) (b : vsb) : Prop :=
+  pending b = None /\ nocasync (chunks b) /\
+  exists D rs e,
+    as_run ([], None) (E ++ Tb b) = Some (D, None)
+    /\ wfd D rs /\ NoDup (rids rs) /\ antichain (rids rs) /\ (forall i, In i (rids rs) -> i <> [])
+    /\ Qok (Qb b) rs e
+    /\ (chk = true -> fill e None D = R)
+    /\ ((E = [] /\ D = Tb b /\ shapeA b)
+        \/ (nosync (chunks b)
+            /\ forall f k i, In (f, k) (pending_ooo b) -> o_id k = Some i ->
+               forall t, In t (sync_buf b) -> is_open i t = false)).
+
+End Invariant.
+
+(* ------------------------------------------------------------------ resolving one closure *)
+Lemma push_last_cof ks t : push_to_last_sync (cof ks) t = cof ks ++ [CSync t].
+Proof.
+  induction ks as [|[f k] ks IH]; [reflexivity|].
+  destruct ks as [|[f' k'] ks']; [reflexivity|].
+  change (cof ((f, k) :: (f', k') :: ks')) with (COoo f k :: cof ((f', k') :: ks')).
+  change (push_to_last_sync (COoo f k :: cof ((f', k') :: ks')) t)
+    with (COoo f k :: push_to_last_sync (cof ((f', k') :: ks')) t).
+  rewrite IH. reflexivity.
+Qed.
+
+(** what the future of an out-of-order chunk yields *)
+Lemma res_oclo_spec chk d k i : o_id k = Some i -> i <> [] -> clo_ok chk k ->
+  exists t ks rs hi,
+    oid (res_oclo k d) = i
+    /\ concat (rev (sync_payloads (ochunks (res_oclo k d)))) = t
+    /\ non_sync (ochunks (res_oclo k d)) = cof ks
+    /\ oreplace (res_oclo k d) = (match o_view k with Some _ => true | None => false end)
+    /\ wfd t rs /\ numbered chk (i ++ [0%N]) 0 hi ks rs
+    /\ (o_view k = None -> t = [] /\ ks = [] /\ rs = [])
+    /\ (chk = true -> forall c, o_view k = Some c ->
+          fill (env_of ks rs) None t = fst (resolved c (o_pos k))).
+Proof.
+  intros Ei Hn Ok. destruct k as [oi pos [c|]]; cbn [o_id o_pos o_view] in *; subst oi.
+  - unfold clo_ok in Ok. cbn [o_view o_pos] in Ok. destruct Ok as [W PFs].
+    assert (i ++ [0%N] <> []) as Hn' by (destruct i; discriminate).
+    assert (chk = true -> pf true false d c pos = true) as PF'
+      by (intros C; eapply pf_weaken; apply (PFs C)).
+    destruct (render_ooo_spec chk d c W (sb_new (Some (i ++ [0%N]))) (i ++ [0%N]) pos pos
+                eq_refl Hn' (peq_refl _) PF') as [t [ks [rs [hi [A1 [A2 [A3 [A4 [A5 A6]]]]]]]]].
+    exists t, ks, rs, hi. unfold res_oclo. cbn [o_id o_pos o_view oid ochunks oreplace option_map].
+    rewrite take_finish.
+    set (b1 := fst (render true d c (sb_new (Some (i ++ [0%N]))) pos)) in *.
+    cbn [sync_buf chunks sb_new app] in A1, A2.
+    assert (chunks (finish b1) = if is_nil t then cof ks else cof ks ++ [CSync t]) as Ec.
+    { unfold finish. rewrite A1. destruct (is_nil t) eqn:En; cbn [chunks set_sync set_chunks].
+      - exact A2.
+      - rewrite A2. apply push_last_cof. }
+    rewrite Ec.
+    split; [reflexivity|]. split.
+    { destruct (is_nil t) eqn:En.
+      - apply is_nil_true in En. rewrite payloads_cof, En. reflexivity.
+      - rewrite payloads_app, payloads_cof. cbn. rewrite app_nil_r. reflexivity. }
+    split.
+    { destruct (is_nil t).
+      - apply non_sync_cof.
+      - unfold non_sync. rewrite filter_app. fold (non_sync (cof ks)). rewrite non_sync_cof.
+        cbn. apply app_nil_r. }
+    split; [reflexivity|]. split; [exact A4|]. split; [exact A5|]. split; [discriminate|].
+    intros C c' Ec'. inversion Ec'; subst c'. apply (A6 C).
+  - exists [], [], [], 0. unfold res_oclo. cbn [o_id o_pos o_view oid ochunks oreplace option_map].
+    rewrite take_finish. cbn.
+    repeat split; auto; try constructor; try lia. intros C c Ec. discriminate.
+Qed.
+
+(* ------------------------------------------------------------------ list helpers *)
+Lemma nodup_app_iff {A} (a b : list A) :
+  NoDup (a ++ b) <-> NoDup a /\ NoDup b /\ (forall x, In x a -> ~ In x b).
+Proof.
+  induction a as [|x a IH]; simpl.
+  - split; [intros H; repeat split; auto; constructor|tauto].
+  - split.
+    + intros H. inversion H as [|? ? Hx Hn]; subst. apply IH in Hn. destruct Hn as [A1 [A2 A3]].
+      rewrite in_app_iff in Hx. repeat split; auto.
+      * constructor; auto.
+      * intros y [Hy|Hy]; subst; auto.
+    + intros [A1 [A2 A3]]. inversion A1 as [|? ? Hx Hn]; subst. constructor.
+      * rewrite in_app_iff. intros [H|H]; auto. apply (A3 x); auto.
+      * apply IH. repeat split; auto.
+Qed.
+Lemma rids_app a b : rids (a ++ b) = rids a ++ rids b.
+Proof. unfold rids. apply map_app. Qed.
+Lemma rids_in i F rs : In (i, F) rs -> In i (rids rs).
+Proof. intros H. unfold rids. apply in_map_iff. exists (i, F). auto. Qed.
+Lemma rs_functional rs i F F' : NoDup (rids rs) -> In (i, F) rs -> In (i, F') rs -> F = F'.
+Proof.
+  induction rs as [|[j G] rs IH]; intros Nd H1 H2; simpl in *; [contradiction|].
+  inversion Nd as [|? ? Hj Nd']; subst.
+  destruct H1 as [H1|H1]; destruct H2 as [H2|H2].
+  - congruence.
+  - inversion H1; subst. exfalso. apply Hj. eapply rids_in; eauto.
+  - inversion H2; subst. exfalso. apply Hj. eapply rids_in; eauto.
+  - auto.
+Qed.
+
+Lemma numbered_clo chk i0 lo hi ks rs : i0 <> [] -> numbered chk i0 lo hi ks rs ->
+  forall f k, In (f, k) ks ->
+  exists j F, lo < j /\ o_id k = Some (bump j i0) /\ In (bump j i0, F) rs /\ clo_ok chk k
+              /\ lookup (env_of ks rs) (bump j i0) = Some (fin k F).
+Proof.
+  intros Hn. induction 1; intros f0 k0 Hin; simpl in Hin; [contradiction|].
+  destruct Hin as [Hin|Hin].
+  - inversion Hin; subst. exists j, F. repeat split; auto.
+    + left. reflexivity.
+    + cbn [env_of lookup]. rewrite list_N_eqb_refl. reflexivity.
+  - destruct (IHnumbered f0 k0 Hin) as [j' [F' [A [B [C [D E]]]]]].
+    exists j', F'. repeat split; auto; try lia.
+    + right. exact C.
+    + cbn [env_of lookup]. rewrite list_N_eqb_neq; auto.
+      intro X. apply bump_inj in X; auto. lia.
+Qed.
+Lemma numbered_reg chk i0 lo hi ks rs : numbered chk i0 lo hi ks rs ->
+  forall i F, In (i, F) rs -> exists f k, In (f, k) ks /\ o_id k = Some i.
+Proof.
+  induction 1; intros i F0 Hin; simpl in Hin; [contradiction|].
+  destruct Hin as [Hin|Hin].
+  - inversion Hin; subst. exists f, k. split; [left; reflexivity|auto].
+  - destruct (IHnumbered i F0 Hin) as [f' [k' [A B]]]. exists f', k'. split; [right; auto|auto].
+Qed.
+Lemma numbered_kids chk i0 lo hi ks rs : numbered chk i0 lo hi ks rs ->
+  map kid ks = map (fun i => Some i) (rids rs).
+Proof. induction 1; simpl; auto. unfold kid at 1. cbn [snd]. rewrite H0, IHnumbered. reflexivity. Qed.
